@@ -460,9 +460,16 @@ func concurrentProposers(out *cq.Out, seed uint64, tier string) {
 				if (b+g)%4 == 3 {
 					k = 1
 				}
+				esize := size
+				if g == 0 && b%2 == 1 {
+					k, esize = 1300, 40 // a large bulk of small events, while the other clients insert
+				}
 				for j := 0; j < k; j++ {
-					e := make([]byte, size+g*37+j*13+b) // different lengths, not multiples of the hash block
+					e := make([]byte, esize+g*37+j%13+b) // different lengths, not multiples of the hash block
 					copy(e, []byte(fmt.Sprintf("proposer %d bulk %d event %d seed %d", g, b, j, seed)))
+					if k == 1300 {
+						copy(e, []byte(fmt.Sprintf("big %d %d %d %d", g, b, j, seed)))
+					}
 					for x := 64; x < len(e); x += 61 {
 						e[x] = byte(x*(g+1) + b + j)
 					}
@@ -501,6 +508,13 @@ func concurrentProposers(out *cq.Out, seed uint64, tier string) {
 			if a.err != nil {
 				out.Count("proposers_call_errors", 1)
 				continue
+			}
+			// one call = one replicated entry: its events receive consecutive versions in the order they were given
+			for i, s := range a.snaps {
+				if s != nil && a.snaps[0] != nil && s.Version != a.snaps[0].Version+uint64(i) {
+					out.Violate("C05:bulk-versions-not-consecutive", fmt.Sprintf("a bulk of %d events inserted while other clients insert was acknowledged with versions %d.. for its first event and %d for its event number %d (expected %d)", len(a.snaps), a.snaps[0].Version, s.Version, i, a.snaps[0].Version+uint64(i)), desc)
+					break
+				}
 			}
 			for i, s := range a.snaps {
 				total++
